@@ -531,15 +531,16 @@ def apply_op(drv, op, U):
         if kind == 'dump_fail':
             # dump of a value whose encoding raises: the exception must come out and nothing may change
             kb = KEYS[op[1] - 1]
-            how = 'nothing'
-            if drv.backend == 'file' and kb in st.packed:
-                # recorded observation (DESIGN.md, C05/C06): dump() drops the packed copy of the key BEFORE it writes
-                how = 'kept' if os.path.exists(st._getfname(kb)) else 'dropped'
+            packed_before = drv.backend == 'file' and kb in st.packed
             try:
                 st.dump(storefaults.failing_value(op[2], op[3]), kb)
             except BaseException as e:
                 if type(e).__name__ != op[2]:
                     raise
+                how = 'nothing'
+                if packed_before and kb not in st.packed:
+                    # recorded observation (DESIGN.md, C05/C06): dump() drops the packed copy of the key BEFORE it writes
+                    how = 'kept' if os.path.exists(st._getfname(kb)) else 'dropped'
                 return ('raised', op[2], how)
             return ('unit',)
         if kind == 'dump_begin':
